@@ -74,9 +74,12 @@ package scorch
 //@     implies(i.gstarted && i.segmentOffset < len(i.iterators) && !i.iterators[i.segmentOffset].pstarted, i.glast < i.snapshot.offsets[i.segmentOffset])
 
 // Next: ids strictly ascending.
+//@ assume func segment.DiskStatsReporter.BytesRead(it)
+//@   pure
 //@ func IndexSnapshotTermFieldReader.Next
 //@   props C08
 //@   mode int
+//@   prune
 //@   requires i != nil && tfrShape(i) && tfrCursor(i) && !i.updateBytesRead && !i.includeFreq && !i.includeNorm && !i.includeTermVectors
 //@   modifies i.segmentOffset, i.currID, i.currPosting, i.gstarted, i.glast, segment.PostingsIterator.pstarted, segment.PostingsIterator.plast, segment.PostingsIterator.pdone, fields(index.TermFieldDoc), mem(byte)
 //@   at return: ghost i.gstarted = i.gstarted || (result1 == nil && result0 != nil)
